@@ -66,10 +66,8 @@ def encode_to_dict(obj: Any, refs: Dict[int, Any]):
 
         return {"__type": "ref", "__id": obj_id}
 
-    # For primitive values and lists, we leave as is
-    if isinstance(obj, list):
-        return [encode_to_dict(v, refs) for v in obj]
-    elif (
+    # For primitive values, we leave as is
+    if (
         isinstance(obj, str)
         or isinstance(obj, int)
         or isinstance(obj, float)
@@ -87,7 +85,10 @@ def encode_to_dict(obj: Any, refs: Dict[int, Any]):
         registered: Dict[str, Any] = {}
         refs[obj_id] = registered
 
-        if isinstance(obj, dict) and all(isinstance(k, str) for k in obj):
+        if isinstance(obj, list):
+            # (lists can be shared as well, e.g. a list passed to a child flow)
+            value = {"__type": "list", "value": [encode_to_dict(v, refs) for v in obj]}
+        elif isinstance(obj, dict) and all(isinstance(k, str) for k in obj):
             value = {
                 "__type": "dict",
                 "value": {k: encode_to_dict(v, refs) for k, v in obj.items()},
@@ -211,6 +212,11 @@ def decode_from_dict(d: Any, refs: Dict[int, Any]):
             elif d_type == "deque":
                 value = register(deque())
                 value.extend(decode_from_dict(d["value"], refs))
+                return value
+
+            elif d_type == "list":
+                value = register([])
+                value.extend(decode_from_dict(v, refs) for v in d["value"])
                 return value
 
             elif d_type == "tuple":
